@@ -747,6 +747,8 @@ def run_parseinit(prog, fn, T, tn, item):
                 r_ = it.call('mkarraytype', [build(t.base), 0, t.n or 0])
                 if t.n is None:
                     r_.obj.f[('incomplete',)] = 1; r_.obj.f[('size',)] = 0
+                if getattr(t, 'zero', False):       # `T a[0]` (GNU zero-length array): complete, size 0
+                    r_.obj.f[('incomplete',)] = 0; r_.obj.f[('size',)] = 0
                 if getattr(t, 'vla', False):        # `T a[n]`: what declarator() builds for a non-constant length
                     r_.obj.f[('size',)] = 0; r_.obj.f[('incomplete',)] = 0
                     r_.obj.f[('prop',)] = (it.load(r_.obj, ('prop',)) or 0) | ev(prog, 'PROPVM')
@@ -1078,8 +1080,13 @@ def rule_initialisable(chk, prog, tier):
     C = scalar('char')
     fam = record('struct', 'fam', [('n', I, None), ('s', array(C, None), None)])
     T['fam'] = fam; T['famA'] = array(fam, None) if False else fam
+    z0 = array(I, 1); z0.n = 0; z0.size = 0; z0.zero = True; z0.name = 'int[0]'
+    T['int[0]'] = z0
+    zs = record('struct', 'zs', [('n', I, None), ('z', z0, None), ('m', I, None)])
+    T['zs'] = zs
     e = lambda k: ((), ('e', 'v%d' % k))
-    CASES = [('fam', ('list', [e(0)]), 4), ('fam', ('list', [e(0), ((), ('str', 3, 1, 'v1'))]), False), ('fam', ('list', [e(0), ((), ('list', [e(1)]))]), False), ('fam', ('list', [((('.', 's'),), ('list', [e(1)]))]), False),
+    CASES = [('int[0]', ('list', [e(0)]), False), ('int[0]', ('list', [e(0), e(1)]), False), ('int[0]', ('list', []), 0), ('zs', ('list', [e(0), ((), ('list', [])), e(1)]), 8),
+             ('fam', ('list', [e(0)]), 4), ('fam', ('list', [e(0), ((), ('str', 3, 1, 'v1'))]), False), ('fam', ('list', [e(0), ((), ('list', [e(1)]))]), False), ('fam', ('list', [((('.', 's'),), ('list', [e(1)]))]), False),
              ('fam', ('list', [e(0), e(1)]), False),('int[n]', ('list', [e(0)]), False), ('int[n]', ('list', [e(0), e(1)]), False), ('int[2][n]', ('list', [e(0)]), False), ('int(*[])[n]', ('list', [e(0), e(1)]), 16), ('int(*[3])[n]', ('list', [e(0)]), 24),
              ('int[]', ('list', [e(0), e(1), e(2)]), 12), ('int[3]', ('list', [e(0)]), 12), ('int[]', ('list', []), False)]
     for tn, item, want in CASES:
